@@ -370,3 +370,46 @@ package labelmap
 //@ func Data.ServeHTTP
 //@   prop C11 C20
 //@   structural
+
+// ---- goroutine/parent races on captured variables (C11), structural contracts ----
+// Each function below starts goroutines; the only obligation generated for it is that no local variable
+// written by a goroutine it starts is accessed by the function afterwards (#gorace...). The bodies are not
+// executed symbolically.
+// gosync sendErr (sendBlocksSpecific): written by the sender goroutine before wg.Done(), read after wg.Wait().
+//@ func Data.sendBlocksSpecific
+//@   prop C11
+//@   structural
+//@   gosync sendErr
+
+//@ func Data.loadXYImages
+//@   prop C11
+//@   structural
+
+//@ func Data.aggregateBlockChanges
+//@   prop C11
+//@   structural
+
+//@ func Data.writeExistingIndices
+//@   prop C11
+//@   structural
+
+//@ func Data.DoRPC
+//@   prop C11
+//@   structural
+
+//@ func Data.GetPointsInSupervoxels
+//@   prop C11
+//@   structural
+
+//@ func Data.getManyLabelPoints
+//@   prop C11
+//@   structural
+
+//@ func Data.writeBlocks
+//@   prop C11
+//@   structural
+
+//@ func Data.writeXYImage
+//@   prop C11
+//@   structural
+
